@@ -100,6 +100,8 @@ class NCEval:
     def ev(s, e):
         if isinstance(e, ast.Name):
             return s.env.get(e.id, NC.atom(e.id))
+        if isinstance(e, ast.Subscript) and isinstance(e.value, ast.Name) and isinstance(s.env.get(e.value.id), list) and isinstance(e.slice, ast.Constant):
+            return s.env[e.value.id][e.slice.value]
         if isinstance(e, ast.UnaryOp) and isinstance(e.op, ast.USub): return s.ev(e.operand).neg()
         if isinstance(e, ast.UnaryOp) and isinstance(e.op, ast.UAdd): return s.ev(e.operand)
         if isinstance(e, ast.BinOp):
@@ -125,6 +127,8 @@ class NCEval:
             name = f"{short}({', '.join(ast.unparse(a) for a in e.args)}{''.join(', ' + k.arg + '=' + ast.unparse(k.value) for k in e.keywords if k.arg)})"
             s.calls[name] = (fn, [ast.unparse(a) for a in e.args], {k.arg: ast.unparse(k.value) for k in e.keywords if k.arg})
             return NC.atom(name)
+        if isinstance(e, ast.Tuple):
+            return [s.ev(x) for x in e.elts]
         if isinstance(e, ast.Constant) and isinstance(e.value, (int, float)):
             return NC.ident().scale(F(str(e.value)))
         return NC.atom('?' + ast.unparse(e)[:40])
@@ -134,7 +138,7 @@ class NCEval:
         for st in stmts:
             if isinstance(st, ast.Assign) and len(st.targets) == 1:
                 t = st.targets[0]
-                if isinstance(t, ast.Name): s.env[t.id] = s.ev(st.value)
+                if isinstance(t, ast.Name): s.env[t.id] = s.ev(st.value)   # may be a list for a tuple value
                 elif isinstance(t, ast.Tuple) and all(isinstance(x, ast.Name) for x in t.elts):
                     v = s.ev(st.value)
                     base = v
